@@ -449,8 +449,56 @@ class CertFam(Family):
                     L.append(f"verify {v} v{i} view:3")
         return L
 
+    def script_pop(self, rng, n, cache, agg):
+        """BLS: some replicas' proofs of possession, as the others hold them, do not check out (not a curve
+        point, missing, somebody else's proof).  Every signature naming such a replica must be rejected by every
+        OTHER replica, the first time and every later time; the replica itself does not check its own proof."""
+        ids = list(range(1, n + 1))
+        bad = rng.sample(ids, 1 if n < 4 or rng.random() < 0.7 else 2)
+        kinds = []
+        for b in bad:
+            k = rng.choice(["bad", "none", "swap"])
+            if k == "swap":
+                others = [i for i in ids if i != b]
+                k = f"swap{rng.choice(others)}" if others else "bad"
+            kinds.append(f"{b}:{k}")
+        L = [f"cfg bls12 {n} cache={cache} agg={agg} pop={','.join(kinds)}",
+             "block B1 parent=G view=1 proposer=1 qc=genesis"]
+        for i in ids:
+            L.append(f"create-pc {i} B1 p{i}")
+            L.append(f"sign {i} view:2 s{i}")
+        q = quorum(n)
+        L.append("create-qc 1 qall B1 " + " ".join(f"p{i}" for i in ids))
+        good = [i for i in ids if i not in bad]
+        if len(good) >= q:
+            L.append("create-qc 1 qgood B1 " + " ".join(f"p{i}" for i in rng.sample(good, q)))
+        mixed = (bad + rng.sample(good, min(len(good), max(0, q - len(bad)))))
+        L.append("create-qc 1 qmix B1 " + " ".join(f"p{i}" for i in mixed))
+        L.append("combine 1 tall " + " ".join(f"s{i}" for i in ids))
+        L.append("tc tcall sig=tall view=2")
+        verifiers = rng.sample(ids, min(n, 3)) + [bad[0]]
+        for v in verifiers:
+            for _ in range(rng.choice([2, 3])):
+                L.append(f"verify-qc {v} qall")
+                L.append(f"verify {v} p{bad[0]} blk:B1")
+            L.append(f"verify-pc {v} p{bad[0]} B1")
+            L.append(f"verify-qc {v} qmix")
+            if len(good) >= q:
+                L.append(f"verify-qc {v} qgood")
+            L.append(f"verify-tc {v} tcall")
+            L.append(f"verify {v} s{bad[-1]} view:2")
+            L.append(f"verify-qc {v} qall")
+            L.append(f"batch-verify {v} tall " + ",".join(f"{i}=view:2" for i in ids))
+            g = rng.choice(good) if good else bad[0]
+            L.append(f"verify {v} p{g} blk:B1")
+        return L
+
     def generate(self, tier, rng):
         quick = tier == "quick"
+        if self.focus != "c11":
+            for k in range(24 if quick else 300):
+                n = rng.choice([2, 3, 4, 4, 5, 7])
+                yield (f"pop-n{n}-{k}", self.script_pop(rng, n, rng.choice([0, 0, 5, 50]), rng.choice([0, 1])))
         if self.focus == "c11":
             for scheme, count in (("ecdsa", 120 if quick else 3000), ("eddsa", 120 if quick else 3000), ("bls12", 40 if quick else 800)):
                 for k in range(count):
